@@ -37,6 +37,9 @@ def run(tier, seed, replay=None):
     # bone tracks sharing key-frame value arrays (identical tracks stored once)
     for i in range(60 if big else 5):
         cases.append((None, "model %x %x 3 2 %x 4 0 1 2 1 0 1 1 1 1 1 1 1 2 0 2 b0%x" % (i % 5, r.randrange(1, 0xfff), r.choice([3, 5, 8]), r.choice([2, 3, 4]))))
+    # static cameras next to animated lights / ribbons / particles (sections whose key frames are placed after the cameras)
+    for i in range(40 if big else 10):
+        cases.append((None, "model %x %x 3 2 2 4 0 1 2 1 0 %x %x 1 1 1 1 1 2 0 2 23%02x" % (i % 5, r.randrange(1, 0xfff), r.choice([1, 2, 3]), r.choice([1, 2, 3]), r.choice([2, 3]))))
     # ... and bone tracks sharing timestamp arrays (with and without shared values)
     for i in range(60 if big else 10):
         cases.append((None, "model %x %x 3 2 %x 4 0 1 2 1 0 1 1 1 1 1 1 1 2 0 2 %s0%x" % (i % 5, r.randrange(1, 0xfff), r.choice([2, 3, 5, 8]), r.choice(["13", "1b"]), r.choice([2, 3, 4]))))
